@@ -99,6 +99,77 @@ let () =
            Printf.printf "W ok valid=%d,wf=%d %s\n" (if C.validate_bytes mvs allowed ms then 1 else 0) (if C.wf_inputb work vs then 1 else 0) (join " ; " (List.map inst_s ms))
          | C.SErr -> print_endline "W err"
          | C.SFuel -> print_endline "W fuel")
+      | "Y" :: rest ->
+        (* Y arch(0 x64 | 1 a64) ngp w.. nvec w.. nvars (srcloc csz csg dstloc osz osg int)*  -> the instruction list the FULL model of
+           emit_args_assignment (SolverFullModel.v: stack stores, two-group shuffle, stack loads) emits, and the validator's verdict *)
+        let rest = ref rest in
+        let next () = match !rest with x :: r -> rest := r; x | [] -> failwith "eol" in
+        let loc () = let (l, r) = loc_of_tokens !rest in rest := r; l in
+        let a = if next () = "0" then C.FX64 else C.FA64 in
+        let ng = int_of_string (next ()) in
+        let wgp = List.init ng (fun _ -> cz_of_string (next ())) in
+        let nvc = int_of_string (next ()) in
+        let wvec = List.init nvc (fun _ -> cz_of_string (next ())) in
+        let nv = int_of_string (next ()) in
+        let vs = List.init nv (fun _ ->
+          let cur = loc () in let csz = cz_of_string (next ()) in let csg = next () = "1" in
+          let out = loc () in let osz = cz_of_string (next ()) in let osg = next () = "1" in let it = next () = "1" in
+          C.finit cur csz csg out osz osg it) in
+        let loc_s = function C.Reg (g, i) -> Printf.sprintf "R %s %s" (zs g) (zs i) | C.Mem (a, o) -> Printf.sprintf "M %s %s" (zs a) (zs o) in
+        let inst_s = function
+          | C.IExt (d, s, e, n, w, wz) -> Printf.sprintf "X %s %s %s %s %s %s" (loc_s d) (loc_s s) (match e with C.ES -> "S" | C.EZ -> "Z") (zs n) (zs w) (zs wz)
+          | C.IXchg (a, b, w, wz) -> Printf.sprintf "G %s %s %s %s" (loc_s a) (loc_s b) (zs w) (zs wz) in
+        (match C.fsolve a wgp wvec vs with
+         | C.SOk ms ->
+           let mvs = List.map C.fmove_of vs in
+           let allowed = List.map (fun r -> C.Reg (zi 0, r)) wgp @ List.map (fun r -> C.Reg (zi 1, r)) wvec
+                         @ List.filter_map (fun v -> match v.C.f_out with C.Mem _ as l -> Some l | _ -> None) vs in
+           Printf.printf "Y ok valid=%d,wf=%d %s\n" (if C.validate mvs allowed ms then 1 else 0) (if C.fwf_inputb wgp wvec vs then 1 else 0) (join " ; " (List.map inst_s ms))
+         | C.SErr -> print_endline "Y err"
+         | C.SFuel -> print_endline "Y fuel")
+      | "D" :: rest ->
+        (* D a64 sp sareg saoff_sp saoff_sa da n then n times: mnemonic nops then nops operands [r g id w | m bits base disp | ?]
+           -> the verified whitelist's reading of a disassembled sequence (DecodeModel.decode) *)
+        let rest = ref rest in
+        let next () = match !rest with x :: r -> rest := r; x | [] -> failwith "eol" in
+        let a64 = next () = "1" in
+        let sp = cz_of_string (next ()) in let sareg = cz_of_string (next ()) in
+        let so_sp = cz_of_string (next ()) in let so_sa = cz_of_string (next ()) in let da = next () = "1" in
+        let fr = { C.d_a64 = a64; d_sp = sp; d_sareg = sareg; d_saoff_sp = so_sp; d_saoff_sa = so_sa; d_da = da } in
+        let n = int_of_string (next ()) in
+        let coq_string s =
+          let asc c = let k = Char.code c in
+            C.Ascii (k land 1 <> 0, k land 2 <> 0, k land 4 <> 0, k land 8 <> 0, k land 16 <> 0, k land 32 <> 0, k land 64 <> 0, k land 128 <> 0) in
+          let rec go i = if i >= String.length s then C.EmptyString else C.String (asc s.[i], go (i + 1)) in go 0 in
+        let bad = ref "" in
+        let op () = match next () with
+          | "r" -> let g = cz_of_string (next ()) in let i = cz_of_string (next ()) in let w = cz_of_string (next ()) in C.OReg (g, i, w)
+          | "m" -> let b = cz_of_string (next ()) in let r = cz_of_string (next ()) in let d = cz_of_string (next ()) in C.OMem (b, r, d)
+          | _ -> C.OBad in
+        let is = List.init n (fun _ ->
+          let m = next () in
+          let k = int_of_string (next ()) in
+          let ops = List.init k (fun _ -> op ()) in
+          match ops with
+          | [d; s] -> ((coq_string m, d), s)
+          | _ -> (if !bad = "" then bad := Printf.sprintf "%s with %d operands" m k); ((coq_string m, C.OBad), C.OBad)) in
+        let loc_s = function C.Reg (g, i) -> Printf.sprintf "R %s %s" (zs g) (zs i) | C.Mem (a, o) -> Printf.sprintf "M %s %s" (zs a) (zs o) in
+        let inst_s = function
+          | C.IExt (d, s, e, n, w, wz) -> Printf.sprintf "X %s %s %s %s %s %s" (loc_s d) (loc_s s) (match e with C.ES -> "S" | C.EZ -> "Z") (zs n) (zs w) (zs wz)
+          | C.IXchg (a, b, w, wz) -> Printf.sprintf "G %s %s %s %s" (loc_s a) (loc_s b) (zs w) (zs wz) in
+        if !bad <> "" then Printf.printf "D none %s\n" !bad
+        else (match C.decode fr is with
+         | Some ms -> Printf.printf "D ok %s\n" (join " ; " (List.map inst_s ms))
+         | None ->
+           (* name the first instruction the whitelist refuses (diagnostic only) *)
+           let rec first pre = function
+             | [] -> "?"
+             | x :: r -> (match C.decode fr (List.rev (x :: pre)) with None -> let ((m, _), _) = x in
+                            let rec str = function C.EmptyString -> "" | C.String (C.Ascii (a,b,c,d,e,f,g,h), t) ->
+                              String.make 1 (Char.chr ((if a then 1 else 0) + (if b then 2 else 0) + (if c then 4 else 0) + (if d then 8 else 0) + (if e then 16 else 0) + (if f then 32 else 0) + (if g then 64 else 0) + (if h then 128 else 0))) ^ str t in
+                            str m
+                          | Some _ -> first (x :: pre) r) in
+           Printf.printf "D none %s\n" (first [] is))
       | "V" :: rest ->
         (* V nm (src dst sbits ssigned dbits int)*nm  na (loc)*na  ni (X dst src e n w wz | G a b w wz)*ni  -> validate *)
         let rest = ref rest in
